@@ -188,6 +188,9 @@ func buildResponse(req *http.Request, rp *Reply, n, k int) (*http.Response, stri
 	if rp.BodyFail >= 0 && body != "" {
 		resp.Body = &failingBody{r: resp.Body, left: rp.BodyFail}
 	}
+	if rp.NilHdr && len(resp.Header) == 0 {
+		resp.Header = nil
+	}
 	return resp, body, nil
 }
 
